@@ -127,6 +127,16 @@ func sameTrace(a, b []string) bool {
 	return true
 }
 
+// run is RunOnce plus the leak verdict.
+func (e *Explorer) run(t *testing.T, prefix []int, expect []uint64) *Result {
+	r := RunOnce(t, &e.Opts, e.Body, prefix, expect)
+	if e.LeakIsViolation && r.Leak && r.Viol == nil && r.Verdict == "complete" {
+		r.Viol = &Violation{Signature: "goroutine-left-blocked-forever", Detail: "after the call returned and everything ran to quiescence, goroutines of the execution are still blocked"}
+		r.Verdict = "violation"
+	}
+	return r
+}
+
 // Explore runs the DFS. It returns an error only for engine problems (divergence).
 func (e *Explorer) Explore(t *testing.T) {
 	if e.Stats == nil {
@@ -155,18 +165,15 @@ func (e *Explorer) Explore(t *testing.T) {
 		}
 		w := stack[len(stack)-1]
 		stack = stack[:len(stack)-1]
-		r := RunOnce(t, &e.Opts, e.Body, w.Prefix, w.Expect)
+		r := e.run(t, w.Prefix, w.Expect)
 		for retry := 0; retry < 3 && r.Verdict == "diverged"; retry++ {
 			// a divergence that does not reproduce is counted and reported, the node is still explored
 			st.Transient++
-			r = RunOnce(t, &e.Opts, e.Body, w.Prefix, w.Expect)
+			r = e.run(t, w.Prefix, w.Expect)
 		}
 		isRoot := len(w.Prefix) == 0
 		countIt := true
-		if e.LeakIsViolation && r.Leak && r.Viol == nil && !strings.HasPrefix(r.Verdict, "engine-panic") {
-			r.Viol = &Violation{Signature: "goroutine-left-blocked-forever", Detail: "after the call returned and everything ran to quiescence, goroutines of the execution are still blocked"}
-			r.Verdict = "violation"
-		}
+
 		if r.Verdict == "diverged" || strings.HasPrefix(r.Verdict, "engine-panic") {
 			st.Diverged = append(st.Diverged, fmt.Sprintf("%s schedule=%v: %s %s", e.Scenario, w.Prefix, r.Verdict, r.Diverged))
 			continue
@@ -195,7 +202,7 @@ func (e *Explorer) Explore(t *testing.T) {
 					}
 					// believe it only if it replays identically
 					for k := 0; k < 2; k++ {
-						r2 := RunOnce(t, &e.Opts, e.Body, r.Choices, nil)
+						r2 := e.run(t, r.Choices, nil)
 						if r2.Viol != nil && r2.Viol.Signature == r.Viol.Signature && sameTrace(r2.Trace, r.Trace) {
 							ce.Replays++
 						}
@@ -209,7 +216,7 @@ func (e *Explorer) Explore(t *testing.T) {
 					cur.Count++
 				}
 			} else if st.Execs%e.ValidateEvery == 0 {
-				r2 := RunOnce(t, &e.Opts, e.Body, r.Choices, nil)
+				r2 := e.run(t, r.Choices, nil)
 				if sameTrace(r2.Trace, r.Trace) && r2.Verdict == r.Verdict {
 					st.Validated++
 				} else {
